@@ -205,9 +205,10 @@ theorem Rib.pruneAt_inv {r g : Rib} {n : Name} (hr : r.Inv) (hn : g.nodes = r.no
     · rw [← hsame m e]; exact hm
   · intro m _; exact Rib.mem_liveList.symm
 
-theorem Rib.removeAt_inv {r : Rib} (hr : r.Inv) (n : Name) (p : Nat × Nat → Bool)
+theorem Rib.removeAt_inv {r : Rib} (hr : r.Inv) (n : Name) (g : List (Nat × Nat) → List (Nat × Nat))
+    (hg : ∀ l, l.isEmpty = true → (g l).isEmpty = true)
     (hpath : ∀ q ∈ prefixes n, q ∈ r.nodes) :
-    (({ r with routes := aset r.routes n (removeFirst p (aget [] r.routes n)) } : Rib).pruneAt n).Inv := by
+    (({ r with routes := aset r.routes n (g (aget [] r.routes n)) } : Rib).pruneAt n).Inv := by
   refine Rib.pruneAt_inv (n := n) hr ?_ hpath ?_ ?_
   · rfl
   · intro m hm; simp [Rib.live, aget_aset, hm]
@@ -215,7 +216,7 @@ theorem Rib.removeAt_inv {r : Rib} (hr : r.Inv) (n : Name) (p : Nat × Nat → B
     intro h
     cases hcur : (aget [] r.routes n).isEmpty with
     | false => rfl
-    | true => rw [removeFirst_nil_of_nil _ _ hcur] at h; cases h
+    | true => rw [hg _ hcur] at h; cases h
 
 theorem Rib.cleanUp_inv {r : Rib} (hr : r.Inv) (face : Nat) : (r.cleanUp face).Inv := by
   unfold Rib.cleanUp
@@ -227,10 +228,15 @@ theorem Rib.cleanUp_inv {r : Rib} (hr : r.Inv) (face : Nat) : (r.cleanUp face).I
     apply ih
     split
     · rename_i hm
-      apply Rib.removeAt_inv hr
-      rcases List.mem_cons.mp (memb_iff.mp hm) with rfl | hn
-      · simp [prefixes]
-      · exact C07.minimal_path hr hn
+      simp only [Bool.and_eq_true] at hm
+      apply Rib.removeAt_inv hr n (fun l => l.filter (fun x => x.1 != face))
+      · intro l hl
+        cases l with
+        | nil => rfl
+        | cons _ _ => simp at hl
+      · rcases List.mem_cons.mp (memb_iff.mp hm.1) with rfl | hn
+        · simp [prefixes]
+        · exact C07.minimal_path hr hn
     · exact hr
 
 theorem Rib.step_inv {r : Rib} (hr : r.Inv) (op : RibOp) : (r.step op).Inv := by
@@ -263,7 +269,7 @@ theorem Rib.step_inv {r : Rib} (hr : r.Inv) (op : RibOp) : (r.step op).Inv := by
     simp only [Rib.step, Rib.remove]
     split
     · rename_i hnode
-      apply Rib.removeAt_inv hr
+      apply Rib.removeAt_inv hr n (removeFirst (fun x => x.1 == f && x.2 == o)) (removeFirst_nil_of_nil _)
       simpa [Rib.nodeAt, memb_iff] using hnode
     · exact hr
   | cleanUp f => exact Rib.cleanUp_inv hr f
